@@ -131,7 +131,7 @@ theorem Good.stepGrad {st c s} (ha : AsgOK c) (h : Good st c μ s) (d : Rat) :
   exact good_ite (c.asg.bcastGrad = true) (a1.broadcastGrad ha l) a1
 
 theorem Good.stepClip {st c s} (h : Good st c μ s) : Good st c μ (stepClip c s) :=
-  forRanks_inv (Good st c μ) c _ s h (fun s r _ hs =>
+  forRanks_inv (Good st c μ) c _ s h (fun _ r _ hs =>
     foldl_inv (Good st c μ) _ _ _ hs (fun s l _ hs => Good.clip_body l s r hs))
 
 theorem Good.stepClear {st c s} (h : Good st c μ s) : Good st c μ (stepClear c s) :=
